@@ -38,7 +38,7 @@ CHECKS.update({
 })
 
 CHECKS.update({
- "C08": dict(technique="acceptance-rule monitor: 114-entry violation/boundary catalogue injected into generated schemas; exception class, cited file/line set, CLI exit status and files observed",
+ "C08": dict(technique="acceptance-rule monitor: 120-entry violation/boundary catalogue injected into generated schemas (import chains, cut-off-at-eof), accepted schemas also in the layouts an editor leaves (no final newline, comment on the last line, CRLF); exception class, cited file/line set, CLI exit status and files observed",
    text="Each case injects one catalogue construct (a violation of a listed constraint or its valid twin on the other side of the limit) at a random scope/depth/file of a generated valid schema; the compiler must accept iff the construct is valid, reject with a ParserError citing the offending file and a line of the construct, and the real CLI must exit non-zero without writing files. Both directions are judged; every sixth case is the untouched valid schema.",
    note="The catalogue is my reading of the statement; constraints the statement does not list are not generated.", ref="2/C08"),
  "C11": dict(technique="reference-model monitor: independent scope resolver vs the parsed AST binding and the encoded layout, on purpose-built shadowing schemas",
@@ -49,19 +49,19 @@ CHECKS.update({
    note="Trusts vlib/rewrite.py to preserve numbers and resolved types.", ref="2/C12"),
  "C13": dict(technique="reference evaluator for constant expressions + read-back of emitted literals (Python import, compiled C program, Go lexical decoding)",
    text="Expression trees with minimal parentheses (precedence/associativity decide), hex/decimal literals, references across imports, all boolean spellings, strings with every escape and non-ASCII; parsed values, capacities and option values compared with an own evaluator; emitted literals read back in all three languages.",
-   note="/ judged only for non-negative operands; emission judged within int64; Go strings decoded by my implementation of Go's lexical rules.", ref="2/C13"),
+   note="/ judged only for non-negative operands; C built with -std=c99 (trigraphs on); two recorded findings (Go typed int / C #define beyond 64 bits); Go strings decoded by my implementation of Go's lexical rules.", ref="2/C13"),
  "C18": dict(technique="differential monitor over repeated/interleaved compilations + cache-coherence monitor on every memoised AST method",
-   text="sha256 of every generated file across fresh processes (hash seeds 0/1/2/random), paths, cwd, output directories, -q, in-process repeats, shared parse, interleaving with another schema; every memoised AST method is recomputed on each call and compared.",
+   text="sha256 of every generated file across fresh processes (hash seeds 0/1/2/random), paths, cwd (also one that holds different files under every relative import path - decoys), output directories, -q, in-process repeats, shared parse, interleaving with another schema; every memoised AST method is recomputed on each call and compared.",
    note="Only generated files are compared.", ref="2/C18"),
 })
 
 CHECKS.update({
- "C09": dict(technique="fuzzing monitor: token/character mutation, random token strings, truncation, hostile shapes; exception-class and per-input alarm watchdog; render of every accepted text; CLI traceback scan (+ atheris in thorough)",
-   text="Tens of thousands of mutated and hostile inputs per run go through the real parser; anything escaping that is not a ParserError/OSError, or an input that twice fails to return within 10 s, is a violation; every accepted text is rendered in all languages and modes and any non-RendererError is a violation.",
-   note="Bounded by generator/mutator reach; inputs are decodable text; thorough adds coverage-guided fuzzing.", ref="2/C09"),
+ "C09": dict(technique="fuzzing monitor: token/character/byte mutation, random token strings, truncation, hostile shapes (depth, size, integers around the print limit); exception-class and per-input alarm watchdog; render of every accepted text; CLI traceback scan (+ atheris in thorough)",
+   text="Tens of thousands of mutated and hostile inputs per run go through the real parser; anything escaping that is not a ParserError/OSError, or an input on which the watched executor process twice burns 40 s of CPU, is a violation; byte-level damaged files (not UTF-8) go through parse(path) as main and as imported file; every accepted text is rendered in all languages and modes and any non-RendererError is a violation.",
+   note="Bounded by generator/mutator reach; thorough adds coverage-guided fuzzing; two recorded findings (recursion limit, alias size beyond the print limit).", ref="2/C09"),
  "C10": dict(technique="toolchain-as-oracle monitor: gcc -std=c99, link, g++, C vs C++ layout programs, Python ast/import/instantiate/execute, static Go checker",
    text="Composition-heavy generated schemas are rendered in every language/mode and handed to the real toolchains: per-file C99 compile, link with a caller of every API function (duplicate symbols), the same caller built by g++ through the header, sizeof/offsetof tables from real C and C++ programs, existence of #include targets, Python duplicate declarations/import/instantiation/method execution, and the static Go requirements via my Go parser.",
-   note="Go only statically (no toolchain); two recorded findings (empty struct size in C++, unused Go imports).", ref="2/C10"),
+   note="Go only statically (no toolchain); recorded findings: empty struct size in C++, unused Go imports, Go transitive imports, C API function vs typedef, Python class-body rebinding, Python import of a hyphenated file name, one output file for two files with one base name.", ref="2/C10"),
  "C15": dict(technique="reference naming model vs names observed in .h text, nm symbol tables, parsed Go, imported Python modules; prefix twin differential (layout programs + driver bytes)",
    text="The exact sets of declared struct/typedef/function/macro names, exported symbols, Go declarations and Python public names are compared with a naming model written from the docs; with c.name_prefix the un-prefixed twin must give identical Go/Python output, struct members, layout and encoded bytes.",
    note="Names restricted to plain style-guide words; nested Go enum/alias names compared normalised.", ref="2/C15"),
@@ -73,7 +73,7 @@ CHECKS.update({
    note="Go is parsed/evaluated by vlib/sut_gotext.py (trusted), never executed.", ref="2/C19"),
  "C20": dict(technique="position oracle from the printer (line/column of every name token) + lint stderr monitor + C08 catalogue for error lines + CLI -q/-c differential",
    text="Conforming schemas must lint clean, each clear naming violation / zero-less enum must be warned about at its file:line, every definition/reference position must equal the name token's position (also on the first line), parser errors must cite a line of the offending construct under heavy layout noise, output must be identical with and without -q and -c must fail exactly on error or warning.",
-   note="Only clear case violations are asserted to warn.", ref="2/C20"),
+   note="Only clear case violations are asserted to warn; one recorded finding (typedef deprecation warning not counted by -c).", ref="2/C20"),
 })
 
 NOT_YET = {}
